@@ -1,5 +1,5 @@
 SPECIFICATION Spec
-CONSTANTS Mode = "hist" MaxOps = 6
+CONSTANTS Mode = "hist" MaxOps = 7
 CONSTRAINT Emit
 POSTCONDITION Post
 CHECK_DEADLOCK FALSE
